@@ -1,2 +1,1280 @@
-// stub created by the lead so that the workspace always loads; replace it with the check
-fn main() {}
+//! C19 — recursive resolution ignores out-of-bailiwick data, respects the server/answer filters
+//! and always terminates within the recursion limits; stub alias chasing is bounded.
+//!
+//! Seam: the real `Recursor` (non-validating) over a simulated internet (`inet.rs`) through a
+//! custom `ConnectionProvider`, under tokio's paused clock; stub side: the real `CachingClient`
+//! over a scripted `DnsHandle`.
+//!
+//! Families (all exhaustive over their declared space):
+//!  (A) delegation-graph grammar x queries, honest servers (reference run, termination);
+//!  (B) the same graphs with one zone turned hostile: its servers add one injection bundle
+//!      (kind x section) to EVERY response; main query + follow-up queries on the same recursor;
+//!      thorough: pairs of injections;
+//!  (C) lame-server kinds x zone x server count;
+//!  (D) length-parameterised termination families (CNAME chains/loops in and across zones, with
+//!      and without server-side chasing; NS-for-NS chains; glueless cycles with 1-2 NS names;
+//!      infinitely deep delegation) x recursion limits: explicit bound + plateau past the limit;
+//!  (E) stub: CachingClient alias chains/loops, <= 8 upstream queries, plateau.
+
+mod inet;
+
+use std::collections::{BTreeMap, BTreeSet};
+use std::future::Future;
+use std::net::{IpAddr, Ipv4Addr};
+use std::pin::Pin;
+use std::sync::{Arc, Mutex};
+use std::time::Duration;
+
+use futures_util::{stream, Stream};
+use hickory_net::runtime::TokioRuntimeProvider;
+use hickory_net::xfer::DnsHandle;
+use hickory_net::{DnsError, NetError};
+use hickory_proto::op::{DnsRequest, DnsRequestOptions, DnsResponse, Message, MessageType, OpCode, Query, ResponseCode};
+use hickory_proto::rr::{Name, RData, Record, RecordType};
+use hickory_resolver::caching_client::CachingClient;
+use hickory_resolver::recursor::{Recursor, RecursorError, RecursorOptions};
+use inet::{is_denied_answer, is_denied_server, n, rec_a, rec_cname, rec_ns, Exchange, Injection, Internet, Lame, Net, Server, Zone};
+use serde_json::{json, Value};
+use vcore::{fnv_str, Ctx, Local};
+
+const POOL_TIMEOUT: Duration = Duration::from_secs(5);
+/// Virtual-time horizon per resolution.
+const HORIZON: Duration = Duration::from_secs(3600);
+const MAX_CNAME_LOOKUPS: u64 = 64;
+
+// ------------------------------------------------------------------------------------------
+// graph grammar
+
+/// Zone indices of the base graph.
+const ROOT: usize = 0;
+const T: usize = 1;
+const O: usize = 2;
+const LT: usize = 3;
+const VO: usize = 4;
+const ZONE_NAMES: [&str; 5] = [".", "t.", "o.", "l.t.", "v.o."];
+
+/// NS styles per zone: (label, NS host prefix, zone that publishes the host's address, glue)
+fn ns_styles(z: usize) -> Vec<(&'static str, &'static str, usize, bool)> {
+    match z {
+        T => vec![("in-zone+glue", "ns", T, true), ("in-zone-no-glue", "ns", T, false), ("sibling-glueless", "nst", O, true), ("in-child+glue", "nsp", LT, true)],
+        O => vec![("in-zone+glue", "ns", O, true), ("sibling-glueless", "nso", T, true)],
+        LT => vec![
+            ("in-zone+glue", "ns", LT, true),
+            ("in-zone-no-glue", "ns", LT, false),
+            ("sibling-tld-glueless", "nsl", O, true),
+            ("sibling-leaf-glueless", "nsl", VO, true),
+            ("parent-zone", "nsl", T, true),
+        ],
+        _ => vec![("in-zone+glue", "ns", VO, true), ("sibling-tld-glueless", "nsv", T, true), ("sibling-leaf-glueless", "nsv", LT, true)],
+    }
+}
+
+#[derive(Clone, Debug, PartialEq, Eq)]
+enum Family {
+    Base,
+    /// CNAME chain c0 -> ... -> cn (A) in l.t. (cross: alternating l.t. / v.o.)
+    CnameChain { n: usize, cross: bool },
+    CnameLoop { n: usize, cross: bool },
+    /// zones z1..zn under t.: z_i NS ns.z_{i+1}.t. (glueless), z_n in-zone with glue
+    NsChain { n: usize },
+    /// z_i NS {ns1..nsk}.z_{i+1}.t., z_n -> z_1 (n = 1: in-zone, no glue)
+    Cycle { n: usize, names: usize },
+    /// every name below l.t. is a delegation to the same servers; query with n extra labels
+    Deep { n: usize },
+}
+
+#[derive(Clone, Debug, PartialEq, Eq)]
+struct Spec {
+    nserv: usize,
+    /// style index for T, O, LT, VO
+    style: [usize; 4],
+    /// (zone, all servers?, kind)
+    lame: Option<(usize, bool, u8)>,
+    chase: bool,
+    family: Family,
+}
+
+impl Spec {
+    fn base() -> Spec {
+        Spec { nserv: 1, style: [0, 0, 0, 0], lame: None, chase: false, family: Family::Base }
+    }
+    fn to_json(&self) -> Value {
+        let fam = match &self.family {
+            Family::Base => json!("base"),
+            Family::CnameChain { n, cross } => json!({"cname-chain": n, "cross": cross}),
+            Family::CnameLoop { n, cross } => json!({"cname-loop": n, "cross": cross}),
+            Family::NsChain { n } => json!({"ns-chain": n}),
+            Family::Cycle { n, names } => json!({"cycle": n, "names": names}),
+            Family::Deep { n } => json!({"deep": n}),
+        };
+        json!({
+            "nserv": self.nserv,
+            "style": self.style,
+            "style_names": [ns_styles(T)[self.style[0]].0, ns_styles(O)[self.style[1]].0, ns_styles(LT)[self.style[2]].0, ns_styles(VO)[self.style[3]].0],
+            "lame": self.lame.map(|(z, all, k)| json!({"zone": ZONE_NAMES[z], "all_servers": all, "kind": k, "kind_name": format!("{:?}", lame_kind(k))})),
+            "chase": self.chase,
+            "family": fam,
+        })
+    }
+    fn from_json(v: &Value) -> Spec {
+        let st: Vec<usize> = v["style"].as_array().unwrap().iter().map(|x| x.as_u64().unwrap() as usize).collect();
+        let fam = &v["family"];
+        let family = if fam.is_string() {
+            Family::Base
+        } else if let Some(x) = fam.get("cname-chain") {
+            Family::CnameChain { n: x.as_u64().unwrap() as usize, cross: fam["cross"].as_bool().unwrap_or(false) }
+        } else if let Some(x) = fam.get("cname-loop") {
+            Family::CnameLoop { n: x.as_u64().unwrap() as usize, cross: fam["cross"].as_bool().unwrap_or(false) }
+        } else if let Some(x) = fam.get("ns-chain") {
+            Family::NsChain { n: x.as_u64().unwrap() as usize }
+        } else if let Some(x) = fam.get("cycle") {
+            Family::Cycle { n: x.as_u64().unwrap() as usize, names: fam["names"].as_u64().unwrap_or(1) as usize }
+        } else {
+            Family::Deep { n: fam["deep"].as_u64().unwrap_or(1) as usize }
+        };
+        let lame = if v["lame"].is_null() {
+            None
+        } else {
+            let z = ZONE_NAMES.iter().position(|x| Some(*x) == v["lame"]["zone"].as_str()).unwrap_or(LT);
+            Some((z, v["lame"]["all_servers"].as_bool().unwrap_or(true), v["lame"]["kind"].as_u64().unwrap_or(1) as u8))
+        };
+        Spec { nserv: v["nserv"].as_u64().unwrap_or(1) as usize, style: [st[0], st[1], st[2], st[3]], lame, chase: v["chase"].as_bool().unwrap_or(false), family }
+    }
+}
+
+fn lame_kind(k: u8) -> Lame {
+    match k {
+        1 => Lame::Refused,
+        2 => Lame::UpwardReferral,
+        3 => Lame::SelfReferral,
+        4 => Lame::Empty,
+        5 => Lame::Timeout,
+        _ => Lame::None,
+    }
+}
+
+fn www_addr(z: usize) -> Ipv4Addr {
+    Ipv4Addr::new(12, z as u8, 0, 80)
+}
+fn server_addr(z: usize, k: usize) -> Ipv4Addr {
+    Ipv4Addr::new(11, 0, z as u8, k as u8 + 1)
+}
+
+fn build(spec: &Spec) -> Internet {
+    let mut zones: Vec<Zone> = vec![];
+    let mut servers: Vec<Server> = vec![];
+    // root
+    zones.push(Zone { name: Name::root(), parent: None, servers: vec![0], ns_names: vec![n("a-root.")], glue: true, records: vec![rec_a(&n("a-root."), server_addr(ROOT, 0))] });
+    servers.push(Server { ip: server_addr(ROOT, 0), zones: vec![ROOT], lame: Lame::None });
+    for z in [T, O, LT, VO] {
+        let name = n(ZONE_NAMES[z]);
+        let parent = match z {
+            T | O => ROOT,
+            LT => T,
+            _ => O,
+        };
+        let mut srv_idx = vec![];
+        for k in 0..spec.nserv {
+            srv_idx.push(servers.len());
+            servers.push(Server { ip: server_addr(z, k), zones: vec![z], lame: Lame::None });
+        }
+        let other_leaf = match z {
+            T => "www.o.",
+            O => "www.t.",
+            LT => "www.v.o.",
+            _ => "www.l.t.",
+        };
+        let records = vec![
+            rec_a(&n(&format!("www.{}", ZONE_NAMES[z])), www_addr(z)),
+            rec_a(&n(&format!("other.{}", ZONE_NAMES[z])), Ipv4Addr::new(12, z as u8, 0, 81)),
+            rec_cname(&n(&format!("alias.{}", ZONE_NAMES[z])), &n(other_leaf)),
+        ];
+        zones.push(Zone { name, parent: Some(parent), servers: srv_idx, ns_names: vec![], glue: true, records });
+    }
+    // NS names per style; the host's address is published in the style's home zone
+    for (si, z) in [T, O, LT, VO].into_iter().enumerate() {
+        let (_, prefix, home, glue) = ns_styles(z)[spec.style[si]];
+        zones[z].glue = glue;
+        for k in 0..spec.nserv {
+            let host = n(&format!("{prefix}{}.{}", k + 1, ZONE_NAMES[home]));
+            zones[z].ns_names.push(host.clone());
+            let ip = servers[zones[z].servers[k]].ip;
+            zones[home].records.push(rec_a(&host, ip));
+        }
+    }
+    if let Some((z, all, kind)) = spec.lame {
+        for (k, s) in zones[z].servers.clone().into_iter().enumerate() {
+            if all || k == 0 {
+                servers[s].lame = lame_kind(kind);
+            }
+        }
+    }
+    let mut deep = None;
+    match &spec.family {
+        Family::Base => {}
+        Family::CnameChain { n: len, cross } | Family::CnameLoop { n: len, cross } => {
+            let is_loop = matches!(spec.family, Family::CnameLoop { .. });
+            let home = |i: usize| if *cross && i % 2 == 1 { VO } else { LT };
+            let nm = |i: usize| n(&format!("c{i}.{}", ZONE_NAMES[home(i)]));
+            for i in 0..*len {
+                let target = if is_loop && i + 1 == *len { nm(0) } else { nm(i + 1) };
+                zones[home(i)].records.push(rec_cname(&nm(i), &target));
+            }
+            if !is_loop {
+                zones[home(*len)].records.push(rec_a(&nm(*len), Ipv4Addr::new(12, 7, 7, 7)));
+            }
+        }
+        Family::NsChain { n: len } | Family::Cycle { n: len, .. } => {
+            let names = if let Family::Cycle { names, .. } = &spec.family { *names } else { 1 };
+            let is_cycle = matches!(spec.family, Family::Cycle { .. });
+            let first = zones.len();
+            for i in 0..*len {
+                let zi = first + i;
+                let name = n(&format!("z{}.t.", i + 1));
+                let s = servers.len();
+                servers.push(Server { ip: Ipv4Addr::new(11, 1, i as u8 + 1, 1), zones: vec![zi], lame: Lame::None });
+                zones.push(Zone {
+                    name: name.clone(),
+                    parent: Some(T),
+                    servers: vec![s],
+                    ns_names: vec![],
+                    glue: true,
+                    records: vec![rec_a(&n(&format!("www.z{}.t.", i + 1)), Ipv4Addr::new(12, 20, i as u8 + 1, 80))],
+                });
+            }
+            for i in 0..*len {
+                let zi = first + i;
+                let last = i + 1 == *len;
+                // where do this zone's NS hosts live?
+                let home = if last {
+                    if is_cycle {
+                        first
+                    } else {
+                        zi
+                    }
+                } else {
+                    zi + 1
+                };
+                if last && is_cycle && *len == 1 {
+                    zones[zi].glue = false; // self-referential, no glue
+                }
+                for k in 0..names {
+                    let host = n(&format!("ns{}-for-z{}.{}", k + 1, i + 1, zones[home].name));
+                    zones[zi].ns_names.push(host.clone());
+                    let ip = servers[zones[zi].servers[0]].ip;
+                    zones[home].records.push(rec_a(&host, ip));
+                }
+            }
+        }
+        Family::Deep { .. } => deep = Some(LT),
+    }
+    Internet { zones, servers, chase_in_zone: spec.chase, deep_delegation: deep, hostile_zone: None, injection: Injection::default() }
+}
+
+// ------------------------------------------------------------------------------------------
+// injections
+
+const SECTIONS: [&str; 3] = ["answer", "authority", "additional"];
+const KINDS: [&str; 9] = [
+    "victim-a",
+    "victim-zone-ns+glue",
+    "victim-parent-ns+glue",
+    "root-ns+glue",
+    "victim-cname+a",
+    "denied-answer-address",
+    "denied-server-glue",
+    "sibling-a",
+    "victim-zone-ns+victim-glue",
+];
+
+/// (victim zone, victim's parent zone, sibling name outside the hostile zone)
+fn victims(hz: usize) -> (usize, usize, &'static str) {
+    match hz {
+        T => (VO, O, "www.o."),
+        LT => (VO, O, "www.t."),
+        O => (LT, T, "www.t."),
+        _ => (LT, T, "www.o."),
+    }
+}
+
+fn injection(hz: usize, kind: usize, section: usize) -> Injection {
+    let hzn = ZONE_NAMES[hz];
+    let (vz, vp, sib) = victims(hz);
+    let evil = n(&format!("evil.{hzn}"));
+    let evil_glue = rec_a(&evil, Ipv4Addr::new(6, 6, 6, 2));
+    let mut main: Vec<Record> = vec![];
+    let mut extra_additional: Vec<Record> = vec![];
+    match kind {
+        0 => main.push(rec_a(&n(&format!("www.{}", ZONE_NAMES[vz])), Ipv4Addr::new(6, 6, 6, 1))),
+        1 => {
+            main.push(rec_ns(&n(ZONE_NAMES[vz]), &evil));
+            extra_additional.push(evil_glue);
+        }
+        2 => {
+            main.push(rec_ns(&n(ZONE_NAMES[vp]), &evil));
+            extra_additional.push(evil_glue);
+        }
+        3 => {
+            main.push(rec_ns(&Name::root(), &evil));
+            extra_additional.push(evil_glue);
+        }
+        4 => {
+            // a CNAME from a name of the hostile zone to the victim, with "the victim's address"
+            main.push(rec_cname(&n(&format!("www.{hzn}")), &n(&format!("www.{}", ZONE_NAMES[vz]))));
+            main.push(rec_a(&n(&format!("www.{}", ZONE_NAMES[vz])), Ipv4Addr::new(6, 6, 6, 3)));
+        }
+        5 => main.push(rec_a(&n(&format!("www.{hzn}")), Ipv4Addr::new(6, 6, 8, 1))),
+        6 => {
+            // in-bailiwick NS + glue at an address the server filter denies
+            let host = n(&format!("nsd.{hzn}"));
+            main.push(rec_ns(&n(hzn), &host));
+            main.push(rec_ns(&n(&format!("www.{hzn}")), &host));
+            // the host's address both as glue and in the chosen section (so that a direct
+            // question for the host's address is answered with it as well)
+            main.push(rec_a(&host, Ipv4Addr::new(6, 6, 7, 1)));
+            extra_additional.push(rec_a(&host, Ipv4Addr::new(6, 6, 7, 1)));
+        }
+        7 => main.push(rec_a(&n(sib), Ipv4Addr::new(6, 6, 6, 5))),
+        _ => {
+            let host = n(&format!("ns-evil.{}", ZONE_NAMES[vz]));
+            main.push(rec_ns(&n(ZONE_NAMES[vz]), &host));
+            extra_additional.push(rec_a(&host, Ipv4Addr::new(6, 6, 6, 4)));
+        }
+    }
+    let mut inj = Injection::default();
+    match section {
+        0 => inj.answers = main,
+        1 => inj.authorities = main,
+        _ => inj.additionals = main,
+    }
+    inj.additionals.extend(extra_additional);
+    inj
+}
+
+fn merge(a: &Injection, b: &Injection) -> Injection {
+    let mut m = a.clone();
+    m.answers.extend(b.answers.iter().cloned());
+    m.authorities.extend(b.authorities.iter().cloned());
+    m.additionals.extend(b.additionals.iter().cloned());
+    m
+}
+
+// ------------------------------------------------------------------------------------------
+// running the real recursor
+
+type Rec = (String, String, String);
+
+fn rec_of(r: &Record) -> Rec {
+    (r.name.to_lowercase().to_ascii(), r.record_type().to_string(), r.data.to_string())
+}
+
+#[derive(Clone, Debug, PartialEq, Eq)]
+enum Outcome {
+    Ok { rcode: String, answers: Vec<Record>, authorities: Vec<Record>, additionals: Vec<Record> },
+    Negative { nx: bool, soa: Option<Record>, authorities: Vec<Record> },
+    ForwardNs { records: Vec<Record> },
+    Err(String),
+    Hung,
+    Panicked(String),
+}
+
+impl Outcome {
+    fn class(&self) -> String {
+        match self {
+            Outcome::Ok { answers, .. } if !answers.is_empty() => "answer".into(),
+            Outcome::Ok { .. } => "ok-empty".into(),
+            Outcome::Negative { nx: true, .. } => "nxdomain".into(),
+            Outcome::Negative { .. } => "nodata".into(),
+            Outcome::ForwardNs { .. } => "forward-ns-error".into(),
+            Outcome::Err(c) => format!("error:{c}"),
+            Outcome::Hung => "hung".into(),
+            Outcome::Panicked(_) => "panicked".into(),
+        }
+    }
+    /// (section label, record) of everything handed back to the caller
+    fn returned(&self) -> Vec<(&'static str, &Record)> {
+        let mut out = vec![];
+        match self {
+            Outcome::Ok { answers, authorities, additionals, .. } => {
+                out.extend(answers.iter().map(|r| ("ok-answer", r)));
+                out.extend(authorities.iter().map(|r| ("ok-authority", r)));
+                out.extend(additionals.iter().map(|r| ("ok-additional", r)));
+            }
+            Outcome::Negative { soa, authorities, .. } => {
+                out.extend(soa.iter().map(|r| ("negative-soa", r)));
+                out.extend(authorities.iter().map(|r| ("negative-authority", r)));
+            }
+            Outcome::ForwardNs { records } => out.extend(records.iter().map(|r| ("forward-ns-error", r))),
+            _ => {}
+        }
+        out
+    }
+    fn canon(&self) -> String {
+        let set = |v: &Vec<Record>| v.iter().map(rec_of).collect::<BTreeSet<_>>();
+        match self {
+            Outcome::Ok { rcode, answers, authorities, additionals } => format!("ok {rcode} {:?} {:?} {:?}", set(answers), set(authorities), set(additionals)),
+            Outcome::Negative { nx, soa, authorities } => format!("neg {nx} {:?} {:?}", soa.as_ref().map(rec_of), set(authorities)),
+            Outcome::ForwardNs { records } => format!("fwd {:?}", set(records)),
+            Outcome::Err(c) => format!("err {c}"),
+            Outcome::Hung => "hung".into(),
+            Outcome::Panicked(p) => format!("panic {p}"),
+        }
+    }
+    fn to_json(&self) -> Value {
+        let recs = |v: &Vec<Record>| v.iter().map(|r| format!("{} {} {}", r.name, r.record_type(), r.data)).collect::<Vec<_>>();
+        match self {
+            Outcome::Ok { rcode, answers, authorities, additionals } => json!({"ok": rcode, "answers": recs(answers), "authorities": recs(authorities), "additionals": recs(additionals)}),
+            Outcome::Negative { nx, soa, authorities } => json!({"negative": if *nx {"nxdomain"} else {"nodata"}, "soa": soa.as_ref().map(|r| format!("{} {}", r.name, r.data)), "authorities": recs(authorities)}),
+            Outcome::ForwardNs { records } => json!({"forward_ns_error": recs(records)}),
+            Outcome::Err(c) => json!({"error": c}),
+            Outcome::Hung => json!("hung"),
+            Outcome::Panicked(p) => json!({"panicked": p}),
+        }
+    }
+}
+
+fn classify_err(e: &RecursorError) -> Outcome {
+    match e {
+        RecursorError::Negative(a) => Outcome::Negative {
+            nx: a.nx_domain,
+            soa: a.soa.as_ref().map(|s| Record::from_rdata(s.name.clone(), s.ttl, RData::SOA(s.data.clone()))),
+            authorities: a.authorities.as_ref().map(|x| x.to_vec()).unwrap_or_default(),
+        },
+        RecursorError::ForwardNS(ns) => {
+            let mut records = vec![];
+            for f in ns.iter() {
+                records.push(f.ns.clone());
+                records.extend(f.glue.iter().cloned());
+            }
+            Outcome::ForwardNs { records }
+        }
+        RecursorError::Net(NetError::Dns(DnsError::NoRecordsFound(nr))) => Outcome::Negative {
+            nx: nr.response_code == ResponseCode::NXDomain,
+            soa: nr.soa.as_ref().map(|s| Record::from_rdata(s.name.clone(), s.ttl, RData::SOA(s.data.clone()))),
+            authorities: nr.authorities.as_ref().map(|x| x.to_vec()).unwrap_or_default(),
+        },
+        RecursorError::Net(NetError::Timeout) | RecursorError::Timeout => Outcome::Err("timeout".into()),
+        RecursorError::Net(NetError::Dns(DnsError::ResponseCode(c))) => Outcome::Err(format!("rcode-{c:?}").to_lowercase()),
+        RecursorError::Net(_) => Outcome::Err("net".into()),
+        RecursorError::RecursionLimitExceeded { .. } => Outcome::Err("recursion-limit".into()),
+        RecursorError::MaxRecordLimitExceeded { .. } => Outcome::Err("cname-limit".into()),
+        RecursorError::Msg(m) if m.contains("no nameserver found") => Outcome::Err("no-nameserver".into()),
+        RecursorError::Msg(_) | RecursorError::Message(_) => Outcome::Err("message".into()),
+        _ => Outcome::Err("other".into()),
+    }
+}
+
+#[derive(Clone, Debug)]
+struct Step {
+    query: (String, String),
+    outcome: Outcome,
+    /// exchanges caused by this resolution
+    log: Vec<Exchange>,
+}
+
+#[derive(Clone, Debug)]
+struct Run {
+    steps: Vec<Step>,
+}
+
+impl Run {
+    fn digest(&self, inet: &Internet) -> u64 {
+        // canonical: per step the outcome and the SET of (zone of the contacted server, question)
+        let mut s = String::new();
+        for st in &self.steps {
+            let set: BTreeSet<(String, String, String)> = st
+                .log
+                .iter()
+                .map(|e| {
+                    let z = inet.server_by_ip(e.ip).map(|i| format!("{:?}", inet.servers[i].zones)).unwrap_or_else(|| e.ip.to_string());
+                    (z, e.qname.clone(), e.qtype.clone())
+                })
+                .collect();
+            s.push_str(&format!("{:?} {} {:?};", st.query, st.outcome.canon(), set));
+        }
+        fnv_str(&s)
+    }
+    fn to_json(&self) -> Value {
+        json!(self
+            .steps
+            .iter()
+            .map(|s| json!({"query": format!("{} {}", s.query.0, s.query.1), "outcome": s.outcome.to_json(), "exchanges": s.log.iter().map(|e| format!("{} <- {} {}", e.ip, e.qname, e.qtype)).collect::<Vec<_>>()}))
+            .collect::<Vec<_>>())
+    }
+}
+
+fn execute(inet: Arc<Internet>, limits: (u8, u8), queries: &[(Name, RecordType)]) -> Run {
+    vsim::install_hook_clock_tokio();
+    let rt = vsim::rt();
+    let run = rt.block_on(async {
+        let net = Net::new(inet.clone(), POOL_TIMEOUT);
+        let opts = RecursorOptions {
+            recursion_limit: limits.0,
+            ns_recursion_limit: limits.1,
+            allow_server: vec![],
+            deny_server: vec!["6.6.7.0/24".parse().unwrap()],
+            allow_answers: vec![],
+            deny_answers: vec!["6.6.8.0/24".parse().unwrap()],
+            ns_cache_size: 64,
+            response_cache_size: 4096,
+            ..RecursorOptions::default()
+        };
+        let rec = Recursor::with_options(&[IpAddr::V4(inet.servers[0].ip)], opts, net.clone()).expect("recursor");
+        let mut steps = vec![];
+        for (name, rtype) in queries {
+            let before = net.exchanges();
+            let now = tokio::time::Instant::now().into_std();
+            let fut = rec.resolve(Query::new(name.clone(), *rtype), now, false);
+            let outcome = match tokio::time::timeout(HORIZON, fut).await {
+                Err(_) => Outcome::Hung,
+                Ok(Ok(m)) => Outcome::Ok {
+                    rcode: format!("{:?}", m.metadata.response_code).to_lowercase(),
+                    answers: m.answers.clone(),
+                    authorities: m.authorities.clone(),
+                    additionals: m.additionals.clone(),
+                },
+                Ok(Err(e)) => classify_err(&e),
+            };
+            let log = net.log()[before..].to_vec();
+            let hung = outcome == Outcome::Hung;
+            steps.push(Step { query: (name.to_ascii(), rtype.to_string()), outcome, log });
+            if hung {
+                break;
+            }
+        }
+        Run { steps }
+    });
+    drop(rt);
+    run
+}
+
+fn execute_caught(inet: Arc<Internet>, limits: (u8, u8), queries: &[(Name, RecordType)]) -> Run {
+    match vcore::catch(|| execute(inet, limits, queries)) {
+        Ok(r) => r,
+        Err(p) => Run {
+            steps: vec![Step {
+                query: (queries[0].0.to_ascii(), queries[0].1.to_string()),
+                outcome: Outcome::Panicked(format!("{} @ {}", p.msg, vcore::short_loc(&p.loc))),
+                log: vec![],
+            }],
+        },
+    }
+}
+
+// ------------------------------------------------------------------------------------------
+// oracle
+
+fn record_ip(r: &Record) -> Option<IpAddr> {
+    match &r.data {
+        RData::A(a) => Some(IpAddr::V4(a.0)),
+        RData::AAAA(a) => Some(IpAddr::V6(a.0)),
+        _ => None,
+    }
+}
+
+fn exchange_bound(limits: (u8, u8), servers: usize) -> u64 {
+    64 * (limits.0 as u64 + limits.1 as u64 + MAX_CNAME_LOOKUPS) * servers as u64
+}
+
+/// Clauses that hold for every run: completion, explicit exchange bound, filters, and that no
+/// address outside the simulated internet is contacted.
+fn judge_common(inet: &Internet, limits: (u8, u8), run: &Run, l: &mut Local, wit: &dyn Fn() -> Value) {
+    for st in &run.steps {
+        match &st.outcome {
+            Outcome::Hung => l.violation("no-termination", "a resolution did not complete within the virtual-time horizon", wit),
+            Outcome::Panicked(p) => {
+                let loc = p.rsplit(" @ ").next().unwrap_or("?");
+                l.violation(&format!("panic:{loc}"), &format!("the recursor panicked: {p}"), wit)
+            }
+            _ => {}
+        }
+        let bound = exchange_bound(limits, inet.servers.len());
+        if st.log.len() as u64 > bound {
+            l.violation(
+                "exchange-bound-exceeded",
+                &format!("{} upstream exchanges for one resolution, explicit bound {bound}", st.log.len()),
+                wit,
+            );
+        }
+        for e in &st.log {
+            if inet.server_by_ip(e.ip).is_some() {
+                continue;
+            }
+            if is_denied_server(e.ip) {
+                l.violation("denied-server-contacted", &format!("{} is denied by the server filter but was sent {} {}", e.ip, e.qname, e.qtype), wit);
+                continue;
+            }
+            // an address that only the attacker's injected records carry: which record carried it?
+            let hostile = inet.hostile_zone.map(|z| inet.zones[z].name.clone());
+            let mut carriers: Vec<(usize, &Record)> = vec![];
+            for (si, sec) in [&inet.injection.answers, &inet.injection.authorities, &inet.injection.additionals].into_iter().enumerate() {
+                for r in sec.iter() {
+                    if record_ip(r) == Some(e.ip) {
+                        carriers.push((si, r));
+                    }
+                }
+            }
+            if carriers.is_empty() && e.ip == IpAddr::V4(Ipv4Addr::new(6, 6, 6, 66)) {
+                // an address handed out by the attacker's own box: consequence of an earlier contact
+                l.outcome("obs:address-from-the-attackers-server-contacted");
+                continue;
+            }
+            if carriers.is_empty() {
+                l.violation("unknown-address-contacted", &format!("{} is neither a server of the simulated internet nor carried by an injected record", e.ip), wit);
+                continue;
+            }
+            for (si, r) in carriers {
+                let owner_inside = hostile.as_ref().map(|h| h.zone_of(&r.name)).unwrap_or(false);
+                // glue of an attacker host that only out-of-bailiwick NS records point to
+                let ns_outside = [&inet.injection.answers, &inet.injection.authorities, &inet.injection.additionals]
+                    .into_iter()
+                    .flat_map(|v| v.iter())
+                    .any(|x| matches!(&x.data, RData::NS(t) if t.0 == r.name) && !hostile.as_ref().map(|h| h.zone_of(&x.name)).unwrap_or(false));
+                if !owner_inside {
+                    l.violation(
+                        &format!("attacker-address-contacted:carrier=out-of-bailiwick-A@{}", SECTIONS[si]),
+                        &format!("{} was sent {} {}: the address comes from the injected record {} A {} whose owner lies outside the hostile zone", e.ip, e.qname, e.qtype, r.name, r.data),
+                        wit,
+                    );
+                } else if ns_outside {
+                    l.violation(
+                        "attacker-address-contacted:carrier=out-of-bailiwick-NS",
+                        &format!("{} was sent {} {}: it is the address of {}, which only an injected out-of-bailiwick NS record names", e.ip, e.qname, e.qtype, r.name),
+                        wit,
+                    );
+                } else {
+                    l.outcome("obs:in-bailiwick-attacker-address-contacted");
+                }
+            }
+        }
+        for (sec, r) in st.outcome.returned() {
+            if let Some(ip) = record_ip(r) {
+                if is_denied_answer(ip) {
+                    l.violation(&format!("denied-answer-returned:{sec}"), &format!("{} {} is denied by the answer filter", r.name, r.data), wit);
+                }
+            }
+        }
+    }
+}
+
+/// Provenance: every record handed back is published data, or lies in the bailiwick of the
+/// hostile zone (whose servers may say what they like about their own names).
+fn judge_provenance(inet: &Internet, run: &Run, phase: &dyn Fn(usize) -> &'static str, l: &mut Local, wit: &dyn Fn() -> Value) {
+    let hostile = inet.hostile_zone.map(|z| inet.zones[z].name.clone());
+    let attacker_contacted = run.steps.iter().any(|s| s.log.iter().any(|e| inet.server_by_ip(e.ip).is_none()));
+    for (i, st) in run.steps.iter().enumerate() {
+        for (sec, r) in st.outcome.returned() {
+            if inet.is_published(r) {
+                continue;
+            }
+            let in_bailiwick = hostile.as_ref().map(|h| h.zone_of(&r.name)).unwrap_or(false);
+            if in_bailiwick {
+                l.outcome("obs:in-bailiwick-attacker-record-returned");
+                continue;
+            }
+            // data served by the attacker's own box is a consequence of having contacted it, which
+            // is reported under its own key
+            let from_evil_box = matches!(record_ip(r), Some(IpAddr::V4(v)) if v == Ipv4Addr::new(6, 6, 6, 66)) || matches!(&r.data, RData::NS(t) if t.0 == n("evil.invalid."));
+            if attacker_contacted && from_evil_box {
+                l.outcome("obs:data-of-the-attackers-server-returned-after-contact");
+                continue;
+            }
+            if sec == "forward-ns-error" {
+                // RecursorError::ForwardNS is not a response and is not relayed to clients
+                l.outcome("obs:out-of-bailiwick-record-inside-forward-ns-error");
+                continue;
+            }
+            l.violation(
+                &format!("out-of-bailiwick-returned:{}:{sec}", phase(i)),
+                &format!(
+                    "{} {} {} is not published by the zone graph and lies outside the hostile zone {:?}, yet it was returned for {} {}",
+                    r.name,
+                    r.record_type(),
+                    r.data,
+                    hostile.as_ref().map(|h| h.to_ascii()),
+                    st.query.0,
+                    st.query.1
+                ),
+                wit,
+            );
+        }
+    }
+}
+
+/// Zones whose servers can legitimately influence the resolution of names in zone `z`: its
+/// ancestors and itself, and (transitively) the zones that host the NS names of those.
+fn dependency_closure(inet: &Internet, z: usize) -> BTreeSet<usize> {
+    let mut set: BTreeSet<usize> = BTreeSet::new();
+    let mut todo = vec![z];
+    while let Some(x) = todo.pop() {
+        if !set.insert(x) {
+            continue;
+        }
+        if let Some(p) = inet.zones[x].parent {
+            todo.push(p);
+        }
+        for h in &inet.zones[x].ns_names {
+            todo.push(inet.owning_zone(h));
+        }
+    }
+    set
+}
+
+// ------------------------------------------------------------------------------------------
+// case descriptors (for replay)
+
+#[derive(Clone, Debug)]
+struct CaseDesc {
+    spec: Spec,
+    limits: (u8, u8),
+    hostile: Option<usize>,
+    /// (kind, section) list
+    inj: Vec<(usize, usize)>,
+    queries: Vec<(String, String)>,
+}
+
+impl CaseDesc {
+    fn to_json(&self) -> Value {
+        json!({
+            "graph": self.spec.to_json(),
+            "limits": [self.limits.0, self.limits.1],
+            "hostile_zone": self.hostile.map(|z| ZONE_NAMES[z]),
+            "injections": self.inj.iter().map(|(k, s)| json!({"kind": k, "kind_name": KINDS[*k], "section": s, "section_name": SECTIONS[*s]})).collect::<Vec<_>>(),
+            "queries": self.queries.iter().map(|(a, b)| json!([a, b])).collect::<Vec<_>>(),
+        })
+    }
+    fn from_json(v: &Value) -> CaseDesc {
+        CaseDesc {
+            spec: Spec::from_json(&v["graph"]),
+            limits: (v["limits"][0].as_u64().unwrap_or(8) as u8, v["limits"][1].as_u64().unwrap_or(8) as u8),
+            hostile: v["hostile_zone"].as_str().and_then(|s| ZONE_NAMES.iter().position(|x| *x == s)),
+            inj: v["injections"].as_array().map(|a| a.iter().map(|x| (x["kind"].as_u64().unwrap() as usize, x["section"].as_u64().unwrap() as usize)).collect()).unwrap_or_default(),
+            queries: v["queries"].as_array().unwrap().iter().map(|q| (q[0].as_str().unwrap().to_string(), q[1].as_str().unwrap().to_string())).collect(),
+        }
+    }
+    fn internet(&self) -> Internet {
+        let mut inet = build(&self.spec);
+        if let Some(hz) = self.hostile {
+            inet.hostile_zone = Some(hz);
+            let mut inj = Injection::default();
+            for (k, s) in &self.inj {
+                inj = merge(&inj, &injection(hz, *k, *s));
+            }
+            inet.injection = inj;
+        }
+        inet
+    }
+    fn parsed_queries(&self) -> Vec<(Name, RecordType)> {
+        self.queries.iter().map(|(a, b)| (n(a), b.parse::<RecordType>().unwrap_or(RecordType::A))).collect()
+    }
+}
+
+fn main_queries() -> Vec<(&'static str, &'static str)> {
+    vec![("www.l.t.", "A"), ("www.v.o.", "A"), ("nx.l.t.", "A"), ("www.l.t.", "AAAA"), ("alias.l.t.", "A"), ("alias.v.o.", "A"), ("l.t.", "NS"), ("www.t.", "A")]
+}
+
+/// Follow-up queries after the main one: names outside the hostile zone's subtree.
+fn followups(hz: usize) -> Vec<(String, String)> {
+    let (vz, vp, sib) = victims(hz);
+    let mut v = vec![
+        (format!("www.{}", ZONE_NAMES[vz]), "A".to_string()),
+        (format!("other.{}", ZONE_NAMES[vz]), "A".to_string()),
+        (format!("www.{}", ZONE_NAMES[vp]), "A".to_string()),
+    ];
+    if !v.iter().any(|x| x.0 == sib) {
+        v.push((sib.to_string(), "A".to_string()));
+    }
+    v
+}
+
+/// Run one descriptor and judge it. `honest` = the run of the same graph/queries without a
+/// hostile zone (None for honest cases themselves).
+fn run_and_judge(desc: &CaseDesc, honest: Option<&Run>, l: &mut Local) -> Run {
+    l.eval();
+    let inet = Arc::new(desc.internet());
+    let run = execute_caught(inet.clone(), desc.limits, &desc.parsed_queries());
+    let wit = || {
+        let mut j = desc.to_json();
+        j["observed"] = run.to_json();
+        j
+    };
+    if std::env::var("VERIF_C19_DEBUG").is_ok() {
+        eprintln!("{}", serde_json::to_string_pretty(&wit()).unwrap());
+    }
+    judge_common(&inet, desc.limits, &run, l, &wit);
+    let skip_provenance = matches!(desc.spec.family, Family::Deep { .. });
+    if !skip_provenance {
+        judge_provenance(&inet, &run, &|i| if i == 0 { "main" } else { "followup" }, l, &wit);
+    }
+    if let (Some(hz), Some(h)) = (desc.hostile, honest) {
+        // follow-ups: names outside the hostile zone must resolve exactly as without the attacker
+        // unless the honest resolution of that name itself depends on the hostile zone's servers
+        let hostile_ips: BTreeSet<IpAddr> = inet.zones[hz].servers.iter().map(|s| IpAddr::V4(inet.servers[*s].ip)).collect();
+        let contacted = run.steps.iter().any(|s| s.log.iter().any(|e| hostile_ips.contains(&e.ip)));
+        if contacted {
+            l.nontrivial(fnv_str(&desc.to_json().to_string()));
+            l.outcome("hostile-server-contacted");
+        } else {
+            l.outcome("hostile-server-not-contacted");
+        }
+        let attacker_contacted = run.steps.iter().any(|s| s.log.iter().any(|e| inet.server_by_ip(e.ip).is_none()));
+        let last = run.steps.len() - 1;
+        for (i, st) in run.steps.iter().enumerate().skip(1) {
+            let Some(hst) = h.steps.get(i) else { continue };
+            if i == last && st.query == run.steps[0].query {
+                // the repeated main query is about the hostile zone itself: provenance only
+                continue;
+            }
+            let qz = inet.owning_zone(&n(&st.query.0));
+            if dependency_closure(&inet, qz).contains(&hz) {
+                l.outcome("obs:followup-depends-on-hostile-zone");
+                continue;
+            }
+            if attacker_contacted {
+                // consequence of a contact that is reported under its own key
+                l.outcome("obs:followup-after-attacker-contact");
+                continue;
+            }
+            let ans = |o: &Outcome| match o {
+                Outcome::Ok { answers, .. } => Some(answers.iter().map(rec_of).collect::<BTreeSet<_>>()),
+                _ => None,
+            };
+            if ans(&st.outcome) != ans(&hst.outcome) || st.outcome.class() != hst.outcome.class() {
+                l.violation(
+                    &format!("followup-differs-from-published:{}->{}", hst.outcome.class(), st.outcome.class()),
+                    &format!(
+                        "after the hostile run the follow-up {} {} gives {} but without the attacker {}",
+                        st.query.0,
+                        st.query.1,
+                        st.outcome.canon(),
+                        hst.outcome.canon()
+                    ),
+                    &wit,
+                );
+            } else {
+                l.outcome("followup-equals-honest");
+            }
+        }
+    }
+    l.outcome(&format!("main:{}", run.steps[0].outcome.class()));
+    run
+}
+
+// ------------------------------------------------------------------------------------------
+// stub side
+
+#[derive(Clone)]
+struct StubConn {
+    /// chain length (number of CNAME hops before the address), or loop length
+    n: usize,
+    is_loop: bool,
+    /// how many CNAMEs of the chain the upstream puts into one response
+    per_response: usize,
+    log: Arc<Mutex<Vec<String>>>,
+}
+
+impl DnsHandle for StubConn {
+    type Response = Pin<Box<dyn Stream<Item = Result<DnsResponse, NetError>> + Send>>;
+    type Runtime = TokioRuntimeProvider;
+    fn send(&self, request: DnsRequest) -> Self::Response {
+        let q = request.queries[0].clone();
+        self.log.lock().unwrap().push(q.name.to_ascii());
+        let mut m = Message::new(request.id, MessageType::Response, OpCode::Query);
+        m.add_query(q.clone());
+        let label = q.name.to_ascii();
+        let idx = label.strip_prefix('c').and_then(|s| s.split('.').next()).and_then(|s| s.parse::<usize>().ok());
+        let nm = |i: usize| n(&format!("c{i}.s."));
+        match idx {
+            Some(mut i) => {
+                for _ in 0..self.per_response.max(1) {
+                    if !self.is_loop && i >= self.n {
+                        break;
+                    }
+                    let next = if self.is_loop { (i + 1) % self.n } else { i + 1 };
+                    m.add_answer(rec_cname(&nm(i), &nm(next)));
+                    i = next;
+                    if self.is_loop && i == 0 {
+                        break;
+                    }
+                }
+                if !self.is_loop && i >= self.n {
+                    m.add_answer(rec_a(&nm(self.n), Ipv4Addr::new(12, 8, 8, 8)));
+                }
+            }
+            None => m.metadata.response_code = ResponseCode::NXDomain,
+        }
+        Box::pin(stream::once(async move { DnsResponse::from_message(m).map_err(NetError::from) }))
+    }
+}
+
+/// (upstream queries, class) of one stub lookup.
+fn stub_run(n_hops: usize, is_loop: bool, per_response: usize, preserve: bool) -> (usize, String) {
+    let rt = vsim::rt();
+    let log = Arc::new(Mutex::new(vec![]));
+    let conn = StubConn { n: n_hops, is_loop, per_response, log: log.clone() };
+    let res = rt.block_on(async {
+        let client = CachingClient::new(64, conn, preserve);
+        let fut: Pin<Box<dyn Future<Output = _>>> = Box::pin(client.lookup(Query::new(n("c0.s."), RecordType::A), DnsRequestOptions::default()));
+        tokio::time::timeout(HORIZON, fut).await
+    });
+    let class = match res {
+        Err(_) => "hung".to_string(),
+        Ok(Ok(lookup)) => {
+            if lookup.answers().iter().any(|r| r.record_type() == RecordType::A) {
+                "answer".into()
+            } else {
+                "ok-without-address".into()
+            }
+        }
+        Ok(Err(_)) => "error".into(),
+    };
+    let count = log.lock().unwrap().len();
+    (count, class)
+}
+
+// ------------------------------------------------------------------------------------------
+
+fn graph_specs(thorough: bool) -> Vec<Spec> {
+    let mut out = vec![];
+    let nservs: &[usize] = if thorough { &[1, 2] } else { &[1] };
+    for &nserv in nservs {
+        for a in 0..ns_styles(T).len() {
+            for b in 0..ns_styles(O).len() {
+                for c in 0..ns_styles(LT).len() {
+                    for d in 0..ns_styles(VO).len() {
+                        out.push(Spec { nserv, style: [a, b, c, d], lame: None, chase: false, family: Family::Base });
+                    }
+                }
+            }
+        }
+    }
+    if !thorough {
+        // quick: the two-server variant of the plain graph and of each single-style deviation
+        let mut s = Spec::base();
+        s.nserv = 2;
+        out.push(s);
+    }
+    out
+}
+
+fn lame_specs() -> Vec<Spec> {
+    let mut out = vec![];
+    for z in [T, O, LT, VO] {
+        for kind in 1..=5u8 {
+            for (nserv, all) in [(1usize, true), (2, true), (2, false)] {
+                let mut s = Spec::base();
+                s.nserv = nserv;
+                s.lame = Some((z, all, kind));
+                out.push(s);
+            }
+        }
+    }
+    out
+}
+
+/// Termination families: (family label, limit class, list of (n, spec, query)).
+fn termination_families(thorough: bool) -> Vec<(String, Vec<(usize, Spec, (String, String))>)> {
+    let mut out = vec![];
+    let maxn = if thorough { 72 } else { 70 };
+    for cross in [false, true] {
+        for chase in [false, true] {
+            let mut v = vec![];
+            for len in 1..=maxn {
+                let mut s = Spec::base();
+                s.chase = chase;
+                s.family = Family::CnameChain { n: len, cross };
+                v.push((len, s, ("c0.l.t.".to_string(), "A".to_string())));
+            }
+            out.push((format!("cname-chain:cross={cross}:server-chases={chase}"), v));
+        }
+        let mut v = vec![];
+        for len in 1..=3 {
+            let mut s = Spec::base();
+            s.family = Family::CnameLoop { n: len, cross };
+            v.push((len, s, ("c0.l.t.".to_string(), "A".to_string())));
+        }
+        out.push((format!("cname-loop:cross={cross}"), v));
+    }
+    let mut v = vec![];
+    for len in 1..=30 {
+        let mut s = Spec::base();
+        s.family = Family::NsChain { n: len };
+        v.push((len, s, ("www.z1.t.".to_string(), "A".to_string())));
+    }
+    out.push(("ns-for-ns-chain".to_string(), v));
+    for names in [1usize, 2] {
+        let mut v = vec![];
+        for len in 1..=if names == 1 { 8 } else { 6 } {
+            let mut s = Spec::base();
+            s.family = Family::Cycle { n: len, names };
+            v.push((len, s, ("www.z1.t.".to_string(), "A".to_string())));
+        }
+        out.push((format!("glueless-cycle:ns-names={names}"), v));
+    }
+    let mut v = vec![];
+    for depth in 1..=40 {
+        let mut s = Spec::base();
+        s.family = Family::Deep { n: depth };
+        let q = format!("{}l.t.", "x.".repeat(depth));
+        v.push((depth, s, (q, "A".to_string())));
+    }
+    out.push(("deep-delegation".to_string(), v));
+    out
+}
+
+fn main() {
+    let ctx = Ctx::from_args("C19", "fault_enumeration");
+    let thorough = !ctx.quick();
+
+    if let Some((_key, case)) = ctx.replay_case() {
+        ctx.with_local(|l| {
+            if case.get("stub").is_some() {
+                let (nn, lp, per, pres) = (
+                    case["stub"]["n"].as_u64().unwrap() as usize,
+                    case["stub"]["loop"].as_bool().unwrap(),
+                    case["stub"]["per_response"].as_u64().unwrap() as usize,
+                    case["stub"]["preserve"].as_bool().unwrap(),
+                );
+                l.eval();
+                let (count, class) = stub_run(nn, lp, per, pres);
+                if count > 8 {
+                    l.violation("stub-alias-chasing-unbounded", &format!("{count} upstream queries, result {class}"), || case.clone());
+                }
+                return;
+            }
+            let desc = CaseDesc::from_json(&case);
+            let honest = desc.hostile.map(|_| {
+                let mut h = desc.clone();
+                h.hostile = None;
+                h.inj.clear();
+                execute_caught(Arc::new(h.internet()), h.limits, &h.parsed_queries())
+            });
+            run_and_judge(&desc, honest.as_ref(), l);
+        });
+        ctx.finish(false);
+    }
+
+    ctx.set_rule(
+        "(A) zone graphs root/t./o./l.t./v.o. with every combination of NS styles (t.: in-zone+glue, in-zone-no-glue, sibling-glueless, in-child+glue; o.: in-zone+glue, sibling-glueless; \
+         l.t.: in-zone+glue, no-glue, sibling-tld, sibling-leaf, parent-zone; v.o.: in-zone+glue, sibling-tld, sibling-leaf; 120 graphs incl. all mutual glueless cycles) x 1 (quick) / 1-2 (thorough) servers per zone \
+         x 8 queries x limits {(4,4),(8,8),(24,24)}, honest; (B) every graph x hostile zone in {t., o., l.t., v.o.} (all its servers) x injection kind (9: victim A, victim-zone NS+glue, victim-parent NS+glue, root NS+glue, \
+         CNAME->victim + victim A, in-bailiwick A at a denied answer address, in-bailiwick NS + glue at a denied server address, sibling A, victim NS + victim glue) x section {answer, authority, additional} added to EVERY response \
+         x main query, followed on the same recursor by 3-4 follow-up queries for names outside the hostile subtree; thorough adds all unordered pairs of injections on the plain graph; \
+         (C) lame kinds {REFUSED, upward referral, self referral, empty NOERROR, timeout} x zone x {1 server, 2 servers both lame, 2 servers first lame}; \
+         (D) CNAME chains 1..70 (in-zone / cross-zone, server chases in-zone or not), CNAME loops 1..3, NS-for-NS chains 1..30, glueless cycles 1..8 (1 NS name) / 1..6 (2 NS names), delegation depth 1..40, each x limits; \
+         (E) stub CachingClient: CNAME chains 1..20, loops 1..3, 1-2 CNAMEs per response, preserve_intermediates on/off. \
+         Oracle: completes; upstream exchanges <= 64*(recursion_limit+ns_recursion_limit+64)*servers and constant in n for every n beyond limit+2; no exchange with an attacker/denied/unknown address; no denied address returned; \
+         every returned record (incl. SOA/authorities of negative results) is published data or lies inside the hostile zone; follow-ups equal the attacker-free run; stub <= 8 upstream queries. \
+         Non-trivial = distinct (graph, hostile zone, injection, query) in which a hostile server was actually contacted.",
+    );
+    ctx.assume("the simulated authoritative servers (inet.rs) follow RFC 1034 4.3.2 for referrals, CNAMEs, NODATA and NXDOMAIN");
+    ctx.assume("name-server order inside a pool is random (initial SRTT); hostility is therefore per zone, and observations are compared as sets of (zone, question)");
+
+    let limits_all: [(u8, u8); 3] = [(4, 4), (8, 8), (24, 24)];
+    let queries = main_queries();
+
+    // ---------------- (A) honest graphs
+    let specs = graph_specs(thorough);
+    let mut honest_descs: Vec<CaseDesc> = vec![];
+    for s in &specs {
+        for lim in limits_all {
+            for q in &queries {
+                honest_descs.push(CaseDesc { spec: s.clone(), limits: lim, hostile: None, inj: vec![], queries: vec![(q.0.to_string(), q.1.to_string())] });
+            }
+        }
+    }
+    for s in lame_specs() {
+        for q in &queries {
+            honest_descs.push(CaseDesc { spec: s.clone(), limits: (8, 8), hostile: None, inj: vec![], queries: vec![(q.0.to_string(), q.1.to_string())] });
+        }
+    }
+    ctx.set("graphs", json!(specs.len()));
+    ctx.set("honest_cases", json!(honest_descs.len()));
+    ctx.par_run(honest_descs.len() as u64, 8, |i, l| {
+        let d = &honest_descs[i as usize];
+        let run = run_and_judge(d, None, l);
+        let order_dependent = d.spec.lame.map(|(_, all, _)| !all).unwrap_or(false);
+        if i % 8 == 0 && !order_dependent {
+            let again = execute_caught(Arc::new(d.internet()), d.limits, &d.parsed_queries());
+            let inet = d.internet();
+            if again.digest(&inet) != run.digest(&inet) {
+                ctx.machinery_failure(&format!("nondeterminism: {} gave two different observations", d.to_json()));
+            }
+            l.outcome("selftest:replayed-identically");
+        }
+        if d.spec.lame.is_some() {
+            l.outcome(&format!("lame:{}", run.steps[0].outcome.class()));
+        }
+        if i % 997 == 0 {
+            l.sample(json!({"family": "honest", "case": d.to_json(), "outcome": run.steps[0].outcome.class(), "exchanges": run.steps[0].log.len()}));
+        }
+    });
+
+    // the plain graph must resolve: otherwise everything below is vacuous
+    {
+        let d = CaseDesc { spec: Spec::base(), limits: (8, 8), hostile: None, inj: vec![], queries: vec![("www.l.t.".into(), "A".into()), ("alias.l.t.".into(), "A".into())] };
+        let run = execute_caught(Arc::new(d.internet()), d.limits, &d.parsed_queries());
+        let ok = run.steps.iter().all(|s| matches!(&s.outcome, Outcome::Ok { answers, .. } if answers.iter().any(|r| r.record_type() == RecordType::A)));
+        if !ok {
+            ctx.machinery_failure(&format!("vacuous: the plain graph does not resolve: {}", run.to_json()));
+        }
+    }
+
+    // ---------------- (B) hostile zones
+    // honest reference runs with follow-ups, per (graph, hostile zone (-> follow-up list), query)
+    let inj_limits = (8u8, 8u8);
+    let mut refs: Vec<(CaseDesc, usize)> = vec![];
+    for s in &specs {
+        for hz in [T, O, LT, VO] {
+            for q in &queries {
+                let mut qs = vec![(q.0.to_string(), q.1.to_string())];
+                qs.extend(followups(hz));
+                // and the main query once more: what the first resolution left in the caches
+                qs.push((q.0.to_string(), q.1.to_string()));
+                refs.push((CaseDesc { spec: s.clone(), limits: inj_limits, hostile: None, inj: vec![], queries: qs }, hz));
+            }
+        }
+    }
+    let ref_runs: Vec<Mutex<Option<Run>>> = refs.iter().map(|_| Mutex::new(None)).collect();
+    ctx.par_run(refs.len() as u64, 8, |i, l| {
+        let (d, _) = &refs[i as usize];
+        l.eval();
+        let run = execute_caught(Arc::new(d.internet()), d.limits, &d.parsed_queries());
+        *ref_runs[i as usize].lock().unwrap() = Some(run);
+    });
+    let ref_runs: Vec<Run> = ref_runs.into_iter().map(|m| m.into_inner().unwrap().unwrap()).collect();
+
+    let mut jobs: Vec<(usize, Vec<(usize, usize)>)> = vec![];
+    for (ri, (d, hz)) in refs.iter().enumerate() {
+        // skip references in which the would-be hostile zone is never contacted (the injection
+        // could not be seen): counted as trivial
+        let inet = d.internet();
+        let ips: BTreeSet<IpAddr> = inet.zones[*hz].servers.iter().map(|s| IpAddr::V4(inet.servers[*s].ip)).collect();
+        if !ref_runs[ri].steps.iter().any(|s| s.log.iter().any(|e| ips.contains(&e.ip))) {
+            continue;
+        }
+        for k in 0..KINDS.len() {
+            for s in 0..SECTIONS.len() {
+                jobs.push((ri, vec![(k, s)]));
+            }
+        }
+        if thorough && d.spec == Spec::base() {
+            let all: Vec<(usize, usize)> = (0..KINDS.len()).flat_map(|k| (0..SECTIONS.len()).map(move |s| (k, s))).collect();
+            for a in 0..all.len() {
+                for b in a + 1..all.len() {
+                    jobs.push((ri, vec![all[a], all[b]]));
+                }
+            }
+        }
+    }
+    ctx.set("hostile_reference_runs", json!(refs.len()));
+    ctx.set("hostile_cases", json!(jobs.len()));
+    ctx.par_run(jobs.len() as u64, 8, |i, l| {
+        let (ri, inj) = &jobs[i as usize];
+        let (rd, hz) = &refs[*ri];
+        let mut d = rd.clone();
+        d.hostile = Some(*hz);
+        d.inj = inj.clone();
+        let run = run_and_judge(&d, Some(&ref_runs[*ri]), l);
+        if i % 64 == 0 {
+            let again = execute_caught(Arc::new(d.internet()), d.limits, &d.parsed_queries());
+            let inet = d.internet();
+            // once an attacker address sits in a pool next to a genuine one, which of the two is
+            // asked depends on hickory's random initial SRTT: such runs are already violations
+            let stray = |r: &Run| r.steps.iter().any(|s| s.log.iter().any(|e| inet.server_by_ip(e.ip).is_none()));
+            if !stray(&again) && !stray(&run) && again.digest(&inet) != run.digest(&inet) {
+                ctx.machinery_failure(&format!("nondeterminism: {} gave two different observations", d.to_json()));
+            }
+            l.outcome("selftest:replayed-identically");
+        }
+        if i % 9973 == 0 {
+            l.sample(json!({"family": "hostile", "case": d.to_json(), "outcomes": run.steps.iter().map(|s| s.outcome.class()).collect::<Vec<_>>() }));
+        }
+    });
+
+    // ---------------- (D) termination families
+    let fams = termination_families(thorough);
+    let mut tjobs: Vec<(usize, usize, (u8, u8))> = vec![];
+    for (fi, (_, v)) in fams.iter().enumerate() {
+        for (vi, _) in v.iter().enumerate() {
+            for lim in limits_all {
+                tjobs.push((fi, vi, lim));
+            }
+        }
+    }
+    let counts: Mutex<BTreeMap<(usize, (u8, u8)), BTreeMap<usize, (usize, String)>>> = Mutex::new(BTreeMap::new());
+    ctx.set("termination_cases", json!(tjobs.len()));
+    ctx.par_run(tjobs.len() as u64, 2, |i, l| {
+        let (fi, vi, lim) = tjobs[i as usize];
+        let (nn, spec, q) = &fams[fi].1[vi];
+        let d = CaseDesc { spec: spec.clone(), limits: lim, hostile: None, inj: vec![], queries: vec![q.clone()] };
+        let run = run_and_judge(&d, None, l);
+        l.outcome(&format!("termination:{}:{}", fams[fi].0.split(':').next().unwrap(), run.steps[0].outcome.class()));
+        counts.lock().unwrap().entry((fi, lim)).or_default().insert(*nn, (run.steps[0].log.len(), run.steps[0].outcome.class()));
+    });
+    let counts = counts.into_inner().unwrap();
+    let mut maxima = serde_json::Map::new();
+    ctx.with_local(|l| {
+        for ((fi, lim), by_n) in &counts {
+            let name = &fams[*fi].0;
+            let limit = if name.starts_with("cname") { lim.0 } else { lim.1 } as usize;
+            let max = by_n.values().map(|v| v.0).max().unwrap_or(0);
+            maxima.insert(format!("{name} limits={lim:?}"), json!({"max_exchanges": max, "bound": exchange_bound(*lim, 6), "by_n": by_n.iter().map(|(n, v)| format!("{n}:{}:{}", v.0, v.1)).collect::<Vec<_>>().join(" ")}));
+            // plateau: beyond limit+2 the number of exchanges does not depend on n any more
+            let beyond: Vec<(&usize, &(usize, String))> = by_n.iter().filter(|(n, _)| **n >= limit + 2).collect();
+            if let Some((n0, first)) = beyond.first() {
+                for (nn, v) in &beyond {
+                    if v.0 != first.0 {
+                        let fam = name.clone();
+                        l.violation(
+                            &format!("exchanges-grow-past-limit:{}", name.split(':').next().unwrap()),
+                            &format!("family {fam} limits {lim:?}: {} exchanges at n={n0} but {} at n={nn}", first.0, v.0),
+                            || json!({"family": fam, "limits": [lim.0, lim.1], "by_n": by_n.iter().map(|(n, v)| json!([n, v.0, v.1])).collect::<Vec<_>>() }),
+                        );
+                        break;
+                    }
+                }
+                l.outcome("plateau-checked");
+            }
+        }
+    });
+    ctx.set("termination_measured", Value::Object(maxima));
+
+    // ---------------- (E) stub
+    ctx.with_local(|l| {
+        let mut stub = serde_json::Map::new();
+        for is_loop in [false, true] {
+            for per in [1usize, 2] {
+                for preserve in [false, true] {
+                    let range: Vec<usize> = if is_loop { (1..=3).collect() } else { (1..=20).collect() };
+                    let mut by_n = vec![];
+                    for nn in range {
+                        l.eval();
+                        let (count, class) = stub_run(nn, is_loop, per, preserve);
+                        by_n.push((nn, count, class.clone()));
+                        let wit = || json!({"stub": {"n": nn, "loop": is_loop, "per_response": per, "preserve": preserve}, "upstream_queries": count, "result": class});
+                        if class == "hung" {
+                            l.violation("stub-no-termination", "CachingClient::lookup did not complete", wit);
+                        }
+                        if count > 8 {
+                            l.violation("stub-alias-chasing-unbounded", &format!("{count} upstream queries for an alias chain of {nn}"), wit);
+                        }
+                        if is_loop && class == "answer" {
+                            l.violation("stub-loop-answered", "an alias loop produced an address", wit);
+                        }
+                        l.outcome(&format!("stub:{class}"));
+                    }
+                    stub.insert(format!("loop={is_loop} per_response={per} preserve={preserve}"), json!(by_n.iter().map(|(n, c, k)| format!("{n}:{c}:{k}")).collect::<Vec<_>>().join(" ")));
+                }
+            }
+        }
+        ctx.set("stub_measured", Value::Object(stub));
+    });
+
+    for class in ["hostile-server-contacted", "followup-equals-honest", "plateau-checked", "selftest:replayed-identically", "stub:error", "stub:answer", "main:answer", "main:nxdomain", "main:nodata"] {
+        if ctx.outcome_count(class) == 0 {
+            ctx.machinery_failure(&format!("vacuous run: outcome class '{class}' was never exercised"));
+        }
+    }
+    ctx.finish(true);
+}
